@@ -1444,6 +1444,10 @@ def op_txt_read(scn):
     return out
 
 
+class _Pairs(list):
+    """a JSON object as its list of (key, value) pairs, in file order"""
+
+
 @op("json_text")
 def op_json_text(scn):
     """the text `to_json` writes, and what CPython's parser makes of its prefixes and of damaged
@@ -1504,10 +1508,31 @@ def op_json_text(scn):
             if not ok3 or res is not None:
                 not_none += 1
     inject = {"texts": texts}
+    # the value that was actually written, with its key order, and the indent width of the file: the
+    # encoder model must reproduce the file from them (whatever order / width the writer chose)
+    def enc(v):
+        if isinstance(v, _Pairs):
+            return ["o"] + [[k, enc(x)] for k, x in v]
+        if isinstance(v, list):
+            return ["a"] + [enc(x) for x in v]
+        if isinstance(v, bool) or v is None or isinstance(v, float):
+            return ["?", repr(v)]
+        if isinstance(v, int):
+            return ["i", v]
+        return ["s", v]
+    try:
+        val = json.loads(text, object_pairs_hook=_Pairs)
+        inject["jv"] = enc(val)
+        second = text.split("\n")[1] if "\n" in text else ""
+        inject["indent"] = (len(second) - len(second.lstrip(" "))) if second.strip() else 4
+    except Exception:
+        pass
+    # the order in which the dict-valued part is written is whatever to_dict() hands to json.dump
+    # (the property does not pin it down): read it off the dict itself
     if kind == "divisor":
-        inject["dorder"] = [c.idx[v.name] for v in obj.degrees.keys()]
+        inject["dorder"] = [c.idx[nm] for nm in obj.to_dict()["degrees"].keys()]
     elif kind == "script":
-        inject["dorder"] = [c.idx[v.name] for v in obj._script.keys()]
+        inject["dorder"] = [c.idx[nm] for nm in obj.to_dict()["script"].keys()]
     return {"text": text, "_inject": inject, "_kinds": kinds, "_loads_ok": loads_ok, "prefix_not_none": not_none}
 
 @op("bounds")
